@@ -12,6 +12,7 @@
 #include <errno.h>
 #include <fcntl.h>
 #include <malloc.h>
+#include <pthread.h>
 #include <signal.h>
 #include <sys/mman.h>
 #include <sys/stat.h>
@@ -37,7 +38,7 @@ static const char *kind_name[] = {"max", "min", "dir-ahead", "data-ahead", "torn
 typedef struct upd_s { int key, del; uint64_t vid; uint32_t vlen; } upd_t;
 
 typedef struct batch_s {
-  int id, sync, rc, acked, nupd, incarnation;
+  int id, sync, rc, acked, nupd, incarnation, writer;
   upd_t *upd;
   size_t ev_begin, ev_ack;   /* event indices in the incarnation's trace */
   uint64_t seg;              /* log number that received its record (0 unknown) */
@@ -59,6 +60,10 @@ static uint8_t *vbuf;
 static long points_max = 0;
 static long nested_max = 12;
 static int writer_tid = 0;
+static int mw_writers = 1;           /* > 1: group-commit workload with that many native writer threads */
+static int batch_lock = 0;
+static int mw_running = 0;
+static uint64_t logged_records = 0;
 
 /* shared verdict area between a recovery child and its parent */
 typedef struct shared_s {
@@ -110,9 +115,18 @@ static uint64_t make_vid(int batch, int idx, int odd) {
 }
 static int vid_batch(uint64_t vid) { return (int)(vid >> 17); }
 
+static void reserve_batches(int extra) {
+  if (nbatches + extra > capbatches) {
+    capbatches = (nbatches + extra) * 2;
+    batches = realloc(batches, (size_t)capbatches * sizeof(batch_t));
+  }
+}
+
 static batch_t *new_batch(void) {
   batch_t *b;
+  while (__atomic_exchange_n(&batch_lock, 1, __ATOMIC_ACQUIRE)) {}
   if (nbatches == capbatches) {
+    if (mw_running) abort();   /* reserved up front: other threads hold pointers */
     capbatches = capbatches ? capbatches * 2 : 256;
     batches = realloc(batches, (size_t)capbatches * sizeof(batch_t));
   }
@@ -121,21 +135,23 @@ static batch_t *new_batch(void) {
   b->id = nbatches + 1;
   b->incarnation = incarnation;
   nbatches++;
+  __atomic_store_n(&batch_lock, 0, __ATOMIC_RELEASE);
   return b;
 }
 
 /* ------------------------------------------------------------------ */
 /* workload of one incarnation (recorded under iomon) */
 
-static uint32_t data_vlen(void) {
-  uint32_t c = vr_uniform(&R, 1000);
-  if (c < 700) return 8 + vr_uniform(&R, 300);
-  if (c < 930) return 300 + vr_uniform(&R, 3000);
-  if (c < 990) return 4000 + vr_uniform(&R, 20000);
-  return 33000 + vr_uniform(&R, 30000);          /* > one 32 KiB log block */
+static uint32_t data_vlen_r(vrng_t *rg) {
+  uint32_t c = vr_uniform(rg, 1000);
+  if (c < 700) return 8 + vr_uniform(rg, 300);
+  if (c < 930) return 300 + vr_uniform(rg, 3000);
+  if (c < 990) return 4000 + vr_uniform(rg, 20000);
+  return 33000 + vr_uniform(rg, 30000);          /* > one 32 KiB log block */
 }
 
-static void issue_batch(dbh_t *h, int nupd_hint) {
+/* writer w of W owns the data keys k with k % W == w */
+static void issue_batch_r(dbh_t *h, int nupd_hint, vrng_t *rg, uint8_t *vb, int w, int W) {
   batch_t *b = new_batch();
   ldb_batch_t *wb = ldb_batch_create();
   ldb_writeopt_t wo = *ldb_writeopt_default;
@@ -144,11 +160,12 @@ static void issue_batch(dbh_t *h, int nupd_hint) {
   ldb_slice_t k, v;
   uint64_t idv = (uint64_t)id;
   b->nupd = n;
+  b->writer = w;
   b->upd = calloc((size_t)n + 1, sizeof(upd_t));
-  b->sync = vr_chance(&R, 300);
+  b->sync = vr_chance(rg, W > 1 ? 400 : 300);
   /* marker first or last or in the middle: position must not matter */
   {
-    int mpos = n == 0 ? 0 : (int)vr_uniform(&R, (uint32_t)n + 1);
+    int mpos = n == 0 ? 0 : (int)vr_uniform(rg, (uint32_t)n + 1);
     for (i = 0; i <= n; i++) {
       if (i == mpos) {
         k = ldb_slice(kb, marker_key(kb, id));
@@ -157,16 +174,16 @@ static void issue_batch(dbh_t *h, int nupd_hint) {
       }
       if (i < n) {
         upd_t *u = &b->upd[i];
-        u->key = (int)vr_uniform(&R, NKEYS);
-        u->del = vr_chance(&R, 150);
+        u->key = (int)vr_uniform(rg, NKEYS / W) * W + w;
+        u->del = vr_chance(rg, 150);
         k = ldb_slice(kb, data_key(kb, u->key));
         if (u->del) {
           ldb_batch_del(wb, &k);
         } else {
-          u->vlen = n > 40 ? 8 + vr_uniform(&R, 120) : data_vlen();
-          u->vid = make_vid(id, i, (int)(vr_next(&R) & 1));
-          vh_fill_value(vbuf, u->vlen, u->vid);
-          v = ldb_slice(vbuf, u->vlen);
+          u->vlen = n > 40 ? 8 + vr_uniform(rg, 120) : data_vlen_r(rg);
+          u->vid = make_vid(id, i, (int)(vr_next(rg) & 1));
+          vh_fill_value(vb, u->vlen, u->vid);
+          v = ldb_slice(vb, u->vlen);
           ldb_batch_put(wb, &k, &v);
         }
       }
@@ -182,6 +199,8 @@ static void issue_batch(dbh_t *h, int nupd_hint) {
   ldb_batch_destroy(wb);
   if (b->rc != LDB_OK) vh_fatal("workload write failed rc=%d on a healthy file system", b->rc);
 }
+
+static void issue_batch(dbh_t *h, int nupd_hint) { issue_batch_r(h, nupd_hint, &R, vbuf, 0, 1); }
 
 static int batch_size_hint(void) {
   uint32_t c = vr_uniform(&R, 1000);
@@ -219,6 +238,49 @@ static void run_workload(dbh_t *h, int n, int allow_reopen) {
       iom_mark(MK_OPENED, 0, 0);
     }
   }
+  if (vr_chance(&R, 500)) ldb_verif_wait_idle(h->db);
+  iom_mark(MK_CLOSING, 1, 0);
+  dbh_close(h);
+}
+
+/* group-commit workload: W native writer threads with thread-owned keys, mixed sync flags; delays on
+   the WAL write/fsync make followers queue behind a leader so that groups really merge */
+typedef struct mwarg_s { dbh_t *h; int w, W, n; vrng_t rg; uint8_t *vb; } mwarg_t;
+
+static void *mw_thread(void *p) {
+  mwarg_t *a = p;
+  int i;
+  for (i = 0; i < a->n; i++) {
+    uint32_t c = vr_uniform(&a->rg, 1000);
+    issue_batch_r(a->h, c < 900 ? 1 + (int)vr_uniform(&a->rg, 4) : 5 + (int)vr_uniform(&a->rg, 40), &a->rg, a->vb, a->w, a->W);
+  }
+  return NULL;
+}
+
+static void mw_hook(int id, const void *p, uint64_t a, uint64_t b) {
+  (void)p; (void)a; (void)b;
+  if (id == 2 /* LDB_VP_WRITE_LOGGED */) __atomic_add_fetch(&logged_records, 1, __ATOMIC_RELAXED);
+}
+
+static void run_workload_mt(dbh_t *h, int n, int W) {
+  pthread_t th[8];
+  mwarg_t arg[8];
+  int i;
+  reserve_batches(n + 16);
+  iom_slow(IOP_WRITE, PC_LOG, 150);
+  iom_slow(IOP_FSYNC, PC_LOG, 300);
+  ldb_verif_point_cb = mw_hook;
+  mw_running = 1;
+  for (i = 0; i < W; i++) {
+    arg[i].h = h; arg[i].w = i; arg[i].W = W; arg[i].n = n / W;
+    vr_seed(&arg[i].rg, vr_next(&R));
+    arg[i].vb = malloc(MAXV + 64);
+    if (pthread_create(&th[i], NULL, mw_thread, &arg[i]) != 0) vh_fatal("pthread_create");
+  }
+  for (i = 0; i < W; i++) { pthread_join(th[i], NULL); free(arg[i].vb); }
+  mw_running = 0;
+  ldb_verif_point_cb = NULL;
+  iom_slow_clear();
   if (vr_chance(&R, 500)) ldb_verif_wait_idle(h->db);
   iom_mark(MK_CLOSING, 1, 0);
   dbh_close(h);
@@ -416,7 +478,7 @@ static void expect_at(expect_t *x, size_t p) {
     if (b->ev_ack < p) {
       x->a_acked++;
       if (b->sync) x->required[b->id] = 1;
-      if (b->seg != 0) {
+      if (b->seg != 0 && mw_writers == 1) {
         size_t u = seg_unlink_event(b->seg);
         if (u != (size_t)-1 && u < p) x->required[b->id] = 1;
       }
@@ -718,8 +780,8 @@ static void child_main(const char *dir, const expect_t *x, const image_t *im, in
       break;
     }
   }
-  /* per-segment prefix */
-  {
+  /* per-segment prefix (single writer: the batch -> segment attribution is exact) */
+  if (mw_writers == 1) {
     int j;
     for (i = first_batch_of_incarnation; i < nbatches; i++) {
       const batch_t *b = &batches[i];
@@ -742,7 +804,7 @@ static void child_main(const char *dir, const expect_t *x, const image_t *im, in
         child_viol("C03", "acked-write-lost", "%s: batch %d (sync=%d) acknowledged before the kill point is missing", img, b->id, b->sync);
         break;
       }
-      if (!(b->ev_ack < x->p) && S[b->id] && b->id != x->inflight) {
+      if (!(b->ev_ack < x->p) && S[b->id] && (mw_writers == 1 ? b->id != x->inflight : !(b->ev_begin < x->p))) {
         child_viol("C03", "unissued-write-present", "%s: batch %d present although neither acknowledged nor in flight", img, b->id);
         break;
       }
@@ -1180,6 +1242,7 @@ int main(int argc, char **argv) {
     else if (!strcmp(argv[i], "--points-max") && i + 1 < argc) points_max = atol(argv[++i]);
     else if (!strcmp(argv[i], "--depth") && i + 1 < argc) max_depth = atoi(argv[++i]);
     else if (!strcmp(argv[i], "--nested-max") && i + 1 < argc) nested_max = atol(argv[++i]);
+    else if (!strcmp(argv[i], "--writers") && i + 1 < argc) mw_writers = atoi(argv[++i]);
     else if (!strcmp(argv[i], "--dir") && i + 1 < argc) base = argv[++i];
     else if (!strcmp(argv[i], "--focus") && i + 1 < argc) {
       const char *fn = argv[++i];
@@ -1228,7 +1291,8 @@ int main(int argc, char **argv) {
   if (rc != LDB_OK) vh_fatal("cannot create database rc=%d", rc);
   iom_mark(MK_OPENED, 0, 0);
   first_batch_of_incarnation = 0;
-  run_workload(&h, nb, 1);
+  if (mw_writers > 1) run_workload_mt(&h, nb, mw_writers);
+  else run_workload(&h, nb, 1);
   dbh_destroy(&h);
   iom_trace(0, 1);
 
@@ -1238,6 +1302,12 @@ int main(int argc, char **argv) {
   vh_count("workload_level0_tables", h.log.level0_started);
   vh_count("workload_compactions", h.log.compacting);
   vh_count("workload_reused_logs", h.log.reusing);
+  if (mw_writers > 1) {
+    vh_count("group_commit_workloads", 1);
+    vh_count("group_commit_batches", (uint64_t)nbatches);
+    vh_count("group_commit_log_records", logged_records);
+    if (logged_records < (uint64_t)nbatches) vh_count("group_commit_merged_batches", (uint64_t)nbatches - logged_records);
+  }
   {
     int multi = 0, syncs = 0;
     for (i = 0; i < nbatches; i++) { syncs += batches[i].sync; if (batches[i].nupd > 100) multi++; }
